@@ -2,5 +2,5 @@ SPECIFICATION Spec
 CONSTANTS
   D = 3
   Leaves = {"Int", "Str"}
-INVARIANTS Emit TwoDefinitionsAgree Reflexive Antisymmetric ShapeAndName NullableWider StricterFits StrInjective Transitive
+INVARIANTS Emit EmitKinds KindLaws TwoDefinitionsAgree Reflexive Antisymmetric ShapeAndName NullableWider StricterFits StrInjective Transitive
 CHECK_DEADLOCK FALSE
